@@ -1,6 +1,6 @@
 """C10 — mpmc: no lost wake-up for receivers or senders (necessary rules)."""
 from rl import (method_role, entry_methods, loc_endswith, path_cond, trace_summary, where, const_of, fmt_val, fmt_loc, fields_of)
-from common import (w3_waker_use, w4_pending_stores_waker, w4_helper, contains, own_node_roots, poll_variant, waker_escapes)
+from common import (w3_waker_use, w4_pending_stores_waker, w4_helper, contains, own_node_roots, poll_variant, waker_escapes, entered_unqueued)
 from engine import NONE
 from lib import CheckerError
 
@@ -66,7 +66,8 @@ def run(C, R):
                         if v[0] == 'param' or (v[0] == 'init' and v[1][0][0] == 'P' and v[1][0][1] != 'self'):
                             accepts.append((i, e, 'push of the own value'))
                     elif e['k'] == 'qop' and e['op'] == 'add_front' and loc_endswith(e['queue'], 'send_waiters') \
-                            and e['node'][0][0] == 'P':
+                            and e['node'][0][0] == 'P' and entered_unqueued(path, e['node'][:1], 'Unregistered'):
+                        # (re-inserting a sender that is already parked offers nothing new: C09.R7 judges that)
                         accepts.append((i, e, 'own sender parked'))
                 for i, e, what in accepts:
                     n1 += 1
@@ -112,7 +113,8 @@ def run(C, R):
                 if path.exit != 'return' or poll_variant(E, path) != 'Pending':
                     continue
                 for e in path.events:
-                    if not (e['k'] == 'qop' and e['op'] == 'add_front' and e['node'][0][0] == 'P'):
+                    if not (e['k'] == 'qop' and e['op'] == 'add_front' and e['node'][0][0] == 'P'
+                            and entered_unqueued(path, e['node'][:1], 'Unregistered')):
                         continue
                     q = fields_of(e['queue'])[-1]
                     open_ = const_of(E, path.facts, ('init', (('P', 'self'), 'is_closed'))) == 0
